@@ -5,7 +5,7 @@ the model consults are regenerated from /repo; (ii) correspondence — the real 
 exhaustively enumerated space of specification trees x n x nest, the real `PerceptionEvaluationConfig` /
 `SensingEvaluationConfig` / `CriticalObjectFilterConfig` / `PerceptionPassFailConfig` on configurations
 obtained by deleting / adding / corrupting keys of a valid configuration of every task, compared with the
-Lean model (accept / reject, error kind, normalised lists); (iii) oracle — the property text re-stated in
+Lean model (accept / reject, normalised per-label lists; the error class only for set_thresholds -> ThresholdError); (iii) oracle — the property text re-stated in
 Python (shape, broadcast-only, idempotence, rejection rules; acceptance rules of a configuration),
 independent of the model.
 
@@ -97,9 +97,21 @@ ASSUMPTIONS = [
     "check_thresholds / check_nested_thresholds called directly: an accepted value that is a list must be a normal form (exactly n "
     "numbers / rows of exactly n numbers) and is returned unchanged; a normal form of plain numbers must be accepted; values that "
     "are not lists are outside their documented domain and only compared with the model",
-    "B3: a missing or falsy (None, 0, 0.0, False, '', []) metric threshold yields an empty list and is not a rejection; "
-    "mandatory parameters are evaluation_task, label_prefix (perception), one complete range kind for 3-D tasks, "
-    "min_point_numbers for detection",
+    "B3: a missing or falsy (None, 0, 0.0, False, '', []) metric threshold is not a rejection; what is exposed for a parameter "
+    "that was not given (today None / []) is not in the text: the oracle only asks that an exposed list holds one value per "
+    "target label; the mandatory parameters judged by the oracle are the task, one complete range kind for 3-D tasks and "
+    "min_point_numbers for detection (the code declares it; a parameter with a default is not mandatory) - label_prefix is "
+    "compared with the model only and a default for it is a counted skip",
+    "the number of target labels is the number of names the caller listed (a non-empty list of strings), independent of the "
+    "implementation's own target_labels; for None / [] (all labels) it is the implementation's list, compared with the model's "
+    "converted list (op config_targets, theorem config_nLabels_is_target_count)",
+    "error kinds: any exception is a rejection; the class is compared (model vs code, a subclass matches) only for "
+    "set_thresholds -> ThresholdError, which observe_at names; cases that vary the frame-id argument are outside the "
+    "quantifier (configuration dictionaries): a disagreement about their acceptance is a counted skip",
+    "frame configs (CriticalObjectFilterConfig / PerceptionPassFailConfig): an accepted list is the argument itself or its "
+    "broadcast (the text admits both rejecting and broadcasting a singleton there)",
+    "the caller's specification: not 'left untouched' (not in the text) but 'still the same specification when normalised "
+    "again for another number of labels' (clause `reuse`)",
     "an unknown metric parameter = a key ending in '_thresholds' that is not a parameter of the metrics config (finding F8)",
     "for n = 0 the oracle only checks the shape of accepted results (the code rejects every nested specification)",
     "a flat list of exactly n numbers in nested mode may be read as one row or as n broadcast rows (the code: one row)",
@@ -865,15 +877,42 @@ def _evaluator(task, prefix):
     return _EV_CACHE[key]
 
 
+def _err(e):
+    """an exception of the real code: class name + the names of its base classes (a subclass of an expected class is a
+    match; the class is looked at only where `observe_at` names it: set_thresholds -> ThresholdError)"""
+    return {"err": type(e).__name__,
+            "mro": [c.__name__ for c in type(e).__mro__ if c not in (object, BaseException, Exception)]}
+
+
+def _is_a(out, cls):
+    """did the real code raise `cls` or a subclass of it?"""
+    return cls in (out.get("mro") or [out.get("err")])
+
+
 def _norm_twice(fn, r):
     try:
         r2 = fn(copy.deepcopy(r))
         return {"ok": from_py(r2)}
     except Exception as e:
-        return {"err": type(e).__name__}
+        return _err(e)
+
+
+def _metric_configs(mc):
+    """the per-task metrics configs a MetricsScoreConfig holds: every public attribute value that itself exposes one of
+    the documented threshold lists (today: detection_config / tracking_config / classification_config / prediction_config;
+    found by what they expose, not by their attribute names)"""
+    try:
+        vals = [v for kk, v in vars(mc).items() if not kk.startswith("_")]
+    except TypeError:
+        vals = [getattr(mc, kk, None) for kk in dir(mc) if not kk.startswith("_")]
+    return [v for v in vals if v is not None and not isinstance(v, (str, int, float, list, tuple, dict))
+            and any(hasattr(v, kk) for kk in DOC_METRIC_PARAMS)]
 
 
 def run_impl(case):
+    # NOTE (harness/run_check.py convention): only the library call the property is about sits in a `try` that produces
+    # out["err"]; set-up (temp dir, the evaluator of the frame configs, imports) and the reading of the public attributes
+    # afterwards propagate and are infrastructure errors / unexpected exceptions, never a recorded rejection.
     k = case["kind"]
     if k == "thr":
         from perception_eval.common.threshold import set_thresholds
@@ -883,9 +922,17 @@ def run_impl(case):
         try:
             r = set_thresholds(v, n, nest)
         except Exception as e:
-            return {"err": type(e).__name__}
-        return {"ok": from_py(r), "again": _norm_twice(lambda x: set_thresholds(x, n, nest), r),
-                "input_after": from_py(v)}
+            return _err(e)
+        out = {"ok": from_py(r), "again": _norm_twice(lambda x: set_thresholds(x, n, nest), r),
+               "input_after": from_py(v)}
+        if n >= 1:
+            # the SAME specification object normalised once more, for another number of labels (the text quantifies
+            # "for all numbers of target labels" over one specification)
+            try:
+                out["reuse"] = {"n": n + 1, "ok": from_py(set_thresholds(v, n + 1, nest))}
+            except Exception as e:
+                out["reuse"] = dict(_err(e), n=n + 1)
+        return out
     if k in ("chk", "chkn"):
         from perception_eval.common import threshold as _thr
 
@@ -894,17 +941,18 @@ def run_impl(case):
         try:
             r = fn(v, case["n"])
         except Exception as e:
-            return {"err": type(e).__name__}
-        return {"ok": from_py(r), "same_object": r is v, "input_after": from_py(v)}
+            return _err(e)
+        return {"ok": from_py(r), "input_after": from_py(v)}
     if k in ("pcfg", "scfg"):
         from perception_eval.config import PerceptionEvaluationConfig, SensingEvaluationConfig
 
         d = {kk: to_py(v) for kk, v in case["d"]}
         cls = PerceptionEvaluationConfig if k == "pcfg" else SensingEvaluationConfig
+        tmp = _tmpdir()  # set-up: an OSError here is not a rejection of the configuration
         try:
-            c = cls(dataset_paths=["x"], frame_id=case["frames"], result_root_directory=_tmpdir(), evaluation_config_dict=d)
+            c = cls(dataset_paths=["x"], frame_id=case["frames"], result_root_directory=tmp, evaluation_config_dict=d)
         except Exception as e:
-            return {"err": type(e).__name__}
+            return _err(e)
         out = {"task": c.evaluation_task.value if hasattr(c.evaluation_task, "value") else repr(c.evaluation_task),
                "n_frames": len(c.frame_ids), "support": list(c.support_tasks)}
         fp = c.filtering_params
@@ -915,14 +963,14 @@ def run_impl(case):
             return {"ok": out}
         out["n"] = len(c.target_labels)
         out["labels"] = [getattr(l, "name", repr(l)) for l in c.target_labels]
-        out["n_f"] = len(fp["target_labels"])
+        out["n_f"] = len(fp["target_labels"]) if "target_labels" in fp else None
         out["filtering"] = {kk: from_py(v) for kk, v in fp.items() if kk != "target_labels"}
-        mc = c.metrics_config
-        cfgs = [x for x in (mc.detection_config, mc.tracking_config, mc.classification_config, mc.prediction_config) if x is not None]
+        cfgs = _metric_configs(c.metrics_config)
         if cfgs:
             ms = [{kk: from_py(getattr(x, kk, {"other": "missing"})) for kk in sorted(DOC_METRIC_PARAMS)} for x in cfgs]
             out["metrics"] = ms[0]
-            out["metrics_all_same"] = all(m == ms[0] for m in ms) and all(len(x.target_labels) == out["n"] for x in cfgs)
+            out["metrics_all_same"] = all(m == ms[0] for m in ms) and all(
+                len(getattr(x, "target_labels", out["labels"])) == out["n"] for x in cfgs)
         else:
             out["metrics"] = None
             out["metrics_all_same"] = True
@@ -933,16 +981,12 @@ def run_impl(case):
         ev = _evaluator(case["task"], case["prefix"])
         a = {kk: to_py(v) for kk, v in case["args"]}
         try:
-            if k == "crit":
-                c = CriticalObjectFilterConfig(ev, **a)
-                lists = {kk: from_py(getattr(c, kk)) for kk in CRIT_KEYS}
-                same = all(from_py(c.filtering_params[kk]) == lists[kk] for kk in CRIT_KEYS)
-            else:
-                c = PerceptionPassFailConfig(ev, **a)
-                lists = {kk: from_py(getattr(c, kk)) for kk in PF_KEYS}
-                same = True
+            c = CriticalObjectFilterConfig(ev, **a) if k == "crit" else PerceptionPassFailConfig(ev, **a)
         except Exception as e:
-            return {"err": type(e).__name__}
+            return _err(e)
+        keys = CRIT_KEYS if k == "crit" else PF_KEYS
+        lists = {kk: from_py(getattr(c, kk)) for kk in keys}
+        same = all(from_py(c.filtering_params[kk]) == lists[kk] for kk in keys if kk in c.filtering_params) if k == "crit" else True
         return {"ok": {"n": len(c.target_labels), "filtering": lists, "params_same": same}}
     raise ValueError(k)
 
@@ -954,6 +998,47 @@ def _n_all(prefix):
     from perception_eval.common.label import AutowareLabel, TrafficLightLabel
 
     return len(list(AutowareLabel if prefix == "autoware" else TrafficLightLabel))
+
+
+def _task_of(case):
+    t = dget([tuple(p) for p in case["d"]], "evaluation_task")
+    return t.get("s") if isinstance(t, dict) else None
+
+
+def _frames_in_quantifier(case):
+    """C15 quantifies over "configuration dictionaries obtained by deleting, adding or corrupting keys of a valid
+    configuration"; the frame ids are a separate constructor argument.  Cases that vary the frame ids are kept as
+    correspondence material, but a disagreement about ACCEPTANCE on them is outside the quantifier (counted skip)."""
+    t = _task_of(case)
+    return t is None or case["frames"] == _default_frames(t)
+
+
+def _f8_keys(case):
+    """signature of the known finding F8: keys ending in `_thresholds` that no metrics config accepts"""
+    return [kk for kk, _ in case["d"] if kk.endswith("_thresholds") and kk not in DOC_METRIC_PARAMS]
+
+
+def _broadcast_args(case, ok):
+    """the keyword lists of an ACCEPTED frame config with every scalar / singleton that the real config exposes as its
+    broadcast written out (None when there is none): the text lets a frame config reject `[1.0]` for two labels (today)
+    or broadcast it ("scalars and singletons broadcast"); the model (verbatim or reject) is then asked about the
+    written-out arguments"""
+    keys = CRIT_KEYS if case["kind"] == "crit" else PF_KEYS
+    n = ok["n"]
+    alt, changed = [], False
+    for kk, v in case["args"]:
+        val = ok["filtering"].get(kk)
+        if kk in keys and v is not None and val is not None and strip(val) != strip(v):
+            try:
+                spec = spec_flat(to_py(v), n)
+            except Exception:
+                spec = None
+            if spec is not None and from_py(spec[0]) == val:
+                alt.append([kk, val])
+                changed = True
+                continue
+        alt.append([kk, v])
+    return alt if changed else None
 
 
 def model_requests(case, out):
@@ -970,24 +1055,99 @@ def model_requests(case, out):
             # audit round 2: the converted target-label LIST of the same configuration (model: configTargetLabels)
             reqs.append({"op": "config_targets", "d": [[kk, to_model(v)] for kk, v in case["d"]]})
         return reqs
-    if k == "crit":
-        return [{"op": "critical_config", "args": [[kk, to_model(v)] for kk, v in case["args"]],
-                 "is2d": case["task"] not in IS_3D, "nAll": _n_all(case["prefix"])}]
-    if k == "pf":
-        return [{"op": "passfail_config", "args": [[kk, to_model(v)] for kk, v in case["args"]], "nAll": _n_all(case["prefix"])}]
+    if k in ("crit", "pf"):
+        def req(args):
+            r = {"op": "critical_config" if k == "crit" else "passfail_config",
+                 "args": [[kk, to_model(v)] for kk, v in args], "nAll": _n_all(case["prefix"])}
+            if k == "crit":
+                r["is2d"] = case["task"] not in IS_3D
+            return r
+
+        reqs = [req(case["args"])]
+        if "ok" in out:  # accepted: the same arguments with scalars / singletons written out (see _broadcast_args)
+            alt = _broadcast_args(case, out["ok"])
+            if alt is not None:
+                reqs.append(req(alt))
+        return reqs
     return []
+
+
+# reasons of the counted skips, for the evidence file only (`extra_evidence`); never read by a verdict
+_SKIP_REASONS = {}
+
+
+def _skip(kind):
+    _SKIP_REASONS[kind] = _SKIP_REASONS.get(kind, 0) + 1
+    return "skip"
+
+
+def extra_evidence():
+    return {"skipped_by_reason": dict(sorted(_SKIP_REASONS.items()))}
+
+
+def _cmp_acceptance(case, out, r):
+    """raised-vs-returned.  The text says "rejected with an error"; an exception CLASS is compared only where
+    `anchors.observe_at` names it ("set_thresholds(...) return value or ThresholdError"); a subclass is a match."""
+    k = case["kind"]
+    if "err" in out and "err" in r:
+        if k == "thr" and r["err"] == "ThresholdError" and not _is_a(out, "ThresholdError"):
+            return f"set_thresholds rejected with {out['err']}, the model (and observe_at) say ThresholdError"
+        return None
+    if k in ("pcfg", "scfg") and not _frames_in_quantifier(case):
+        return _skip("acceptance:frame-id-argument-varied")
+    if "err" in out:
+        if k == "pcfg" and _f8_keys(case):
+            # known finding F8: the model hard-codes the DEFECTIVE acceptance of an unknown `*_thresholds` key; the text
+            # ("accepted only if ... no unknown metric parameter is supplied") demands exactly this rejection, so on the
+            # finding's signature both outcomes are accepted (a repair of F8 must not alarm)
+            return None
+        return f"impl rejects ({out['err']}), model accepts {_short(r)}"
+    if k == "pcfg" and not dhas([tuple(p) for p in case["d"]], "label_prefix"):
+        # WHICH parameters are mandatory is not in the text ("mandatory parameters are present"): a default label
+        # prefix is a legitimate change; the model has no default to compare the result with
+        return _skip("acceptance:label_prefix-defaulted")
+    return f"impl accepts {_short(out)}, model rejects ({r['err']})"
+
+
+def _tolerated_default(val, n, nest):
+    """an exposed list for a parameter that was NOT given (the text is silent; today None / []): anything that is not a
+    list, or a list of the right shape"""
+    if val is None or val == []:
+        return True
+    if isinstance(val, dict) and "other" in val:
+        return False
+    try:
+        return _shape_ok(to_py(val), n, nest)
+    except Exception:
+        return False
+
+
+def _cmp_frame_lists(a, r):
+    b = r["ok"]
+    if a["n"] != b["n"]:
+        return f"number of target labels: impl {a['n']} != model {b['n']}"
+    mf = dict((kk, v) for kk, v in b["filtering"])
+    if _model_dict(a["filtering"]) != mf:
+        return f"lists: impl {_short(a['filtering'])} != model {_short(mf)}"
+    return None
 
 
 def compare(case, out, resps):
     r = resps[0]
     k = case["kind"]
+    if k in ("crit", "pf") and "ok" in out:
+        # accepted frame config: the model on the arguments as given, or on the arguments with scalars / singletons
+        # broadcast ("scalars and singletons broadcast" - the text admits both a rejection and a broadcast here)
+        ds = [(_cmp_frame_lists(out["ok"], x) if "ok" in x else _cmp_acceptance(case, out, x)) for x in resps]
+        return None if any(d is None for d in ds) else ds[0]
     if "err" in out or "err" in r:
-        return None if out.get("err") == r.get("err") else f"impl {_short(out)} != model {_short(r)}"
+        return _cmp_acceptance(case, out, r)
     if k in ("thr", "chk", "chkn"):
         return None if to_model(out["ok"]) == r["ok"] else f"impl {_short(out['ok'])} != model {_short(r['ok'])}"
     a, b = out["ok"], r["ok"]
     if a["n"] != b["n"]:
         return f"number of target labels: impl {a['n']} != model {b['n']}"
+    n = b["n"]
     if k == "pcfg" and len(resps) > 1:
         # an accepted configuration: the model's target-label list is the real `target_labels`, and `n` is its length
         t = resps[1]
@@ -996,17 +1156,41 @@ def compare(case, out, resps):
         if a.get("labels") != t["ok"] or len(t["ok"]) != b["n"]:
             return f"target labels: impl {a.get('labels')} != model {t['ok']} (model n = {b['n']})"
     mf = dict((kk, v) for kk, v in b["filtering"])
-    if k in ("pcfg", "scfg"):
-        if a["task"] != b["task"]:
-            return f"task: impl {a['task']} != model {b['task']}"
-        if _model_dict(a["filtering"]) != mf:
-            return f"filtering_params: impl {_short(a['filtering'])} != model {_short(mf)}"
-        mm = None if b["metrics"] is None else dict((kk, v) for kk, v in b["metrics"])
-        if _model_dict(a["metrics"]) != mm:
-            return f"metrics lists: impl {_short(a['metrics'])} != model {_short(mm)}"
+    if a["task"] != b["task"]:
+        return f"task: impl {a['task']} != model {b['task']}"
+    af = _model_dict(a["filtering"])
+    if k == "scfg":
+        # sensing: the property names no list of the sensing configuration; the keys both sides know are compared
+        mm = dict((kk, v) for kk, v in (b["metrics"] or []))
+        am = _model_dict(a["metrics"] or {})
+        for kk in sorted(set(af) & set(mf)):
+            if af[kk] != mf[kk]:
+                return f"filtering_params[{kk}]: impl {_short(af[kk])} != model {_short(mf[kk])}"
+        for kk in sorted(set(am) & set(mm)):
+            if am[kk] != mm[kk]:
+                return f"metrics_params[{kk}]: impl {_short(am[kk])} != model {_short(mm[kk])}"
         return None
-    if _model_dict(a["filtering"]) != mf:
-        return f"lists: impl {_short(a['filtering'])} != model {_short(mf)}"
+    # perception: the PER-LABEL lists the property speaks of (FILTER_SRC keys, DOC_METRIC_PARAMS); other / new keys of
+    # filtering_params (ignore_attributes, target_uuids, uuid_matching_first, ...) are not its subject
+    for kk in FILTER_SRC:
+        if kk not in af:
+            continue  # the oracle reports the missing key
+        if af[kk] == mf.get(kk):
+            continue
+        if mf.get(kk) is None and _tolerated_default(a["filtering"][kk], n, False):
+            continue  # parameter not given: the text is silent on what is exposed (a default list of n values is fine)
+        return f"filtering_params[{kk}]: impl {_short(a['filtering'][kk])} != model {_short(mf.get(kk))}"
+    mm = None if b["metrics"] is None else dict((kk, v) for kk, v in b["metrics"])
+    if (a["metrics"] is None) != (mm is None):
+        return f"metrics lists: impl {_short(a['metrics'])} != model {_short(mm)}"
+    if mm is not None:
+        am = _model_dict(a["metrics"])
+        for kk in sorted(DOC_METRIC_PARAMS):
+            if am.get(kk) == mm.get(kk):
+                continue
+            if mm.get(kk) == [] and _tolerated_default(a["metrics"].get(kk), n, True):
+                continue  # threshold not given (or falsy)
+            return f"metrics list {kk}: impl {_short(a['metrics'].get(kk))} != model {_short(mm.get(kk))}"
     return None
 
 
@@ -1119,6 +1303,14 @@ def _check_norm(v, n, nest, result_w, what):
     return out
 
 
+def _names_given(tl):
+    """the number of target labels the CALLER named: a non-empty list of strings names len(list) labels (one converted
+    label per name); None / [] ("all labels") and ill-typed values: no independent count (None)"""
+    if isinstance(tl, list) and tl and all(isinstance(x, str) for x in tl):
+        return len(tl)
+    return None
+
+
 def _complaints(case, out):
     k = case["kind"]
     cs = []
@@ -1132,8 +1324,23 @@ def _complaints(case, out):
         cs += _check_norm(v, n, nest, out["ok"], f"set_thresholds(n={n}, nest={nest})")
         if n >= 1 and out.get("again") != {"ok": out["ok"]}:
             cs.append(("idempotence", f"normalising the accepted result {_short(out['ok'])} again gives {_short(out.get('again'))}"))
-        if out.get("input_after") != strip(case["v"]):
-            cs.append(("input-mutated", f"the specification was modified in place: {_short(out.get('input_after'))}"))
+        # "A threshold given as a scalar, a flat list or a nested list is normalised to lists holding exactly one value per
+        # target label ... for all numbers of target labels": the SAME specification object, normalised for n labels and
+        # then for n+1, must still be read as the specification the caller wrote (this is where a normalisation that
+        # rewrites the caller's list in place breaks the statement; "the input is untouched" itself is not in the text)
+        ru = out.get("reuse")
+        if n >= 1 and isinstance(ru, dict) and not _has_bool(v):
+            n2 = ru["n"]
+            spec2 = (spec_nested if nest else spec_flat)(v, n2)
+            what = (f"the specification {_short(case['v'])}, after having been normalised for {n} labels (left as "
+                    f"{_short(out.get('input_after'))}), normalised for {n2} labels (nest={nest})")
+            if "err" in ru:
+                if spec2 is not None:
+                    cs.append(("reuse", f"{what}: well-formed but rejected with {ru['err']}"))
+            elif spec2 is None:
+                cs.append(("reuse", f"{what}: malformed ({_why_malformed(v, nest)}) but accepted as {_short(ru['ok'])}"))
+            elif not any(from_py(alt) == ru["ok"] for alt in spec2):
+                cs.append(("reuse", f"{what}: gives {_short(ru['ok'])}, neither its rows nor their broadcasts"))
         return cs
     if k in ("chk", "chkn"):
         v, n = to_py(case["v"]), case["n"]
@@ -1146,38 +1353,43 @@ def _complaints(case, out):
             return cs
         if not isinstance(v, list):
             return cs  # not a list at all ("" has nothing to check): outside the documented domain
-        if not normal:
-            why = _why_malformed(v, nest)
-            cs.append(("malformed-accepted", f"{what}(n={n}): {_short(case['v'])} is not a normal form ({why}) but was accepted as {_short(out['ok'])}"))
-        if out["ok"] != strip(case["v"]) or out.get("input_after") != strip(case["v"]):
-            cs.append(("altered", f"{what}(n={n}): {_short(case['v'])} returned as {_short(out['ok'])}, input afterwards {_short(out.get('input_after'))}"))
-        return cs
+        if nest and not v:
+            return cs  # []: no row to check
+        # an accepted list: "rejected with an error instead of being padded or truncated" - what comes back is the value
+        # itself or (scalars and singletons broadcast) its broadcast, never anything else
+        return _check_norm(v, n, nest, out["ok"], f"{what}(n={n})")
     if "err" in out:
         return cs  # "accepted only if": a rejection never violates the property
     a = out["ok"]
-    n = a["n"]
+    n_impl = a["n"]
     if k in ("pcfg", "scfg"):
         d = {kk: to_py(v) for kk, v in case["d"]}
         task = d.get("evaluation_task")
         if not isinstance(task, str) or task not in DOC_SUPPORT[k]:
             cs.append(("unsupported-task", f"task {task!r} is not supported by the {'perception' if k == 'pcfg' else 'sensing'} manager but the configuration was accepted"))
             return cs
-        if task in IS_3D and a["n_frames"] != 1:
-            cs.append(("frame-count", f"3-D task accepted with {a['n_frames']} frame ids"))
+        # (the number of frame ids of a 3-D task is not in the statement - mechanism only: compared with the model)
         if k == "scfg":
             return cs
+        # "lists whose length equals the number of target labels": the labels the caller named where he named them
+        # (independent of the implementation's own `target_labels`), else the implementation's list
+        n = _names_given(d.get("target_labels"))
+        if n is None:
+            n = n_impl
+        elif n_impl != n:
+            cs.append(("labels", f"{n} target labels were named but the configuration's target_labels has {n_impl} entries"))
         xy = [d.get("max_x_position") is not None, d.get("max_y_position") is not None]
         dist = [d.get("max_distance") is not None, d.get("min_distance") is not None]
         if task in IS_3D and not ((all(xy) and not any(dist)) or (all(dist) and not any(xy))):
             cs.append(("range-kind", f"3-D task accepted with range bounds x/y given={xy}, max/min distance given={dist} (exactly one complete kind is required)"))
-        if "label_prefix" not in d:
-            cs.append(("mandatory", "accepted without label_prefix"))
-        if task == "detection" and d.get("min_point_numbers") is None:
+        # "mandatory parameters are present": the text does not list them; judged is the one the code itself declares
+        # ("In detection task, min point numbers must be specified"); a parameter that has a default is not mandatory
+        if task == "detection" and d.get("min_point_numbers") is None and a["filtering"].get("min_point_numbers") is None:
             cs.append(("mandatory", "detection accepted without min_point_numbers"))
         for kk in d:
             if kk.endswith("_thresholds") and kk not in DOC_METRIC_PARAMS:
                 cs.append(("unknown-metric-param", f"unknown metric parameter {kk!r} accepted (MetricsParameterError documented)"))
-        if a.get("n_f") != n:
+        if a.get("n_f") is not None and a.get("n_f") != n:
             cs.append(("labels", f"filtering target_labels has {a.get('n_f')} entries, config has {n}"))
         used_xy = all(xy)
         for key, src in FILTER_SRC.items():
@@ -1191,8 +1403,10 @@ def _complaints(case, out):
             if key in ("max_distance_list", "min_distance_list") and not all(dist):
                 v = None
             if v is None:
-                if val is not None:
-                    cs.append(("altered", f"{key} = {_short(val)} although {src} is not given"))
+                # parameter not given / range kind not used: the text is silent on what is exposed (today None); an
+                # exposed LIST must still hold one value per target label
+                if not _tolerated_default(val, n, False):
+                    cs.append(("shape", f"{key} = {_short(val)} ({src} not given) does not hold exactly {n} numbers"))
                 continue
             if val is None:
                 cs.append(("dropped", f"{src} = {_short(from_py(v))} given but {key} is None"))
@@ -1204,23 +1418,30 @@ def _complaints(case, out):
             for key in sorted(DOC_METRIC_PARAMS):
                 val = a["metrics"].get(key)
                 v = d.get(key)
-                if not v:  # missing or falsy: no threshold of this kind (B3)
-                    if val != []:
-                        cs.append(("altered", f"{key} not given but exposed as {_short(val)}"))
+                if not v:  # missing or falsy: no threshold of this kind (B3); exposed today as [] - the text is silent
+                    if not _tolerated_default(val, n, True):
+                        cs.append(("shape", f"{key} not given but exposed as {_short(val)}: rows do not hold exactly {n} numbers"))
                     continue
                 cs += _check_norm(v, n, True, val, key)
         return cs
-    # frame configs: every exposed list is None or the argument itself, of exactly n numbers
+    # frame configs: every exposed list holds exactly n numbers and is the argument itself or (scalars and singletons
+    # broadcast) its broadcast
     args = {kk: to_py(v) for kk, v in case["args"]}
+    n = _names_given(args.get("target_labels"))
+    if n is None:
+        n = n_impl
+    elif n_impl != n:
+        cs.append(("labels", f"{n} target labels were named but the frame config's target_labels has {n_impl} entries"))
     if k == "crit" and not a.get("params_same"):
         cs.append(("params", "filtering_params differs from the attributes"))
     for key, val in a["filtering"].items():
         if val is None:
             continue
-        if isinstance(val, dict) and "other" in val or not _shape_ok(to_py(val), n, False):
-            cs.append(("shape", f"{key} = {_short(val)} accepted for {n} target labels"))
-        elif val != from_py(args.get(key)):
-            cs.append(("altered", f"{key}: argument {_short(from_py(args.get(key)))} exposed as {_short(val)}"))
+        if args.get(key) is None:
+            if not _tolerated_default(val, n, False):
+                cs.append(("shape", f"{key} = {_short(val)} (not given) accepted for {n} target labels"))
+            continue
+        cs += _check_norm(args.get(key), n, False, val, key)
     return cs
 
 
